@@ -7,6 +7,7 @@
 //!   mode=patterns maxn=N        every cut-bit pattern of 1..N leaves (leaf hashes realise the prescribed bits)
 //!   mode=random n= seed=        lists of 1 .. 20000 entries, repeated hashes, lengths 0 / 1 / 2^32-1, random salts, keys
 //!   mode=data n= seed=          byte strings: one-shot vs streaming vs reference hash; text forms; keyed hashes
+//!   mode=sink n= seed=          HashedWrite over a sink that accepts only part of each buffer (short writes)
 //!   mode=xorb n= seed=          real chunks -> uploader hash -> CasObject::serialize -> both validators
 use std::collections::HashMap;
 use std::io::{Cursor, Write};
@@ -751,9 +752,35 @@ pub fn run(a: &Args) -> anyhow::Result<String> {
         },
         "data" => {
             for _ in 0..n {
-                let ev = data_family(&mut t, &mut rng, a.u64("short_sink", 1) == 1);
+                let ev = data_family(&mut t, &mut rng, a.u64("short_sink", 0) == 1);
                 if sample.is_empty() {
                     sample = ev.iter().take(6).cloned().collect();
+                }
+                out.run(&ev)?;
+            }
+        },
+        "sink" => {
+            // HashedWrite over a sink that takes at most k bytes per write call; one family per k
+            for i in 0..n {
+                let mut ev = vec![];
+                for _ in 0..4 {
+                    let len = [0usize, 1, 5, 64, 1000, 1001, 70_000][rng.gen_range(0..7)];
+                    let mut d = vec![0u8; len];
+                    rng.fill(&mut d[..]);
+                    let did = t.datas.id(&d);
+                    ev.push(json!({"ev":"MtData","did":did,"n":d.len(),"path":"compute_data_hash","id":t.hid(&mh(&compute_data_hash(&d)))}).to_string());
+                    let k = [1usize, 7, 64, 1000, 1 << 20][i % 5];
+                    let mut w = HashedWrite::new(ShortWriter { buf: Vec::new(), k });
+                    let r = w.write_all(&d);
+                    let _ = w.flush();
+                    let sh = w.hash();
+                    let inner_ok = r.is_ok() && w.into_inner().buf == d;
+                    ev.push(json!({"ev":"MtData","did":did,"n":d.len(),"path":"HashedWrite/short_sink","k":k,"inner_ok":inner_ok,"id":t.hid(&mh(&sh))}).to_string());
+                    ev.push(json!({"ev":"MtData","did":did,"n":d.len(),"path":"ref","id":t.hid(&merkleref::chunk_hash(&d))}).to_string());
+                    t.add("datas_short_sink", 1);
+                }
+                if sample.is_empty() {
+                    sample = ev.iter().take(3).cloned().collect();
                 }
                 out.run(&ev)?;
             }
